@@ -117,6 +117,8 @@ Fixpoint digits_val_acc (acc : Z) (s : text) : Z :=
   end.
 Definition digits_val (s : text) : Z := digits_val_acc 0 s.
 
+Definition is_nil {A} (l : list A) : bool := match l with [] => true | _ => false end.
+
 Definition option_bind {A B} (o : option A) (f : A -> option B) : option B :=
   match o with Some a => f a | None => None end.
 
